@@ -1,10 +1,10 @@
 # sourced by every script: offline Go environment for building /repo
 # The repo's go.mod names a Go version that exists as a cached toolchain module; put it first on PATH.
-_gover=$(sed -n 's/^go \([0-9.]*\)$/\1/p' /repo/go.mod | head -1)
+_gover=$(sed -n 's/^go \([0-9.]*\)$/\1/p' ${VERIF_REPO:-/repo}/go.mod | head -1)
 _tc=/root/go/pkg/mod/golang.org/toolchain@v0.0.1-go${_gover}.linux-amd64/bin
 if [ -d "$_tc" ]; then
   export PATH="$_tc:$PATH"
 fi
 export GOFLAGS=-mod=mod GOPROXY=off GOSUMDB=off GOTOOLCHAIN=local GONOSUMDB=* GONOSUMCHECK=1 GOFLAGS=-mod=mod
 export CGO_ENABLED=${CGO_ENABLED:-1}
-export VERIF_ROOT=/verif
+export VERIF_ROOT=${VERIF_ROOT:-/verif}
